@@ -292,10 +292,12 @@ structure MSt where
   statics : List ((FName × Nat) × Val)
   out : List String
 
-/-- value held by slot `i` (`none`: index out of range — `GetIndexZVal` returns nil) -/
+/-- value held by slot `i` (`none`: index out of range — `GetIndexZVal` returns nil).
+A bound slot *is* the function's cell (a pointer in Go: it cannot be absent; `bindStatic`
+creates the cell before it binds the slot). -/
 def MSt.getSlot (s : MSt) (i : Nat) : Option Val :=
   match s.fr.fn with
-  | some g => if i ∈ s.fr.bound then aget s.statics (g, i) else s.fr.slots[i]?
+  | some g => if i ∈ s.fr.bound then some ((aget s.statics (g, i)).getD .null) else s.fr.slots[i]?
   | none => s.fr.slots[i]?
 
 def MSt.setSlot (s : MSt) (i : Nat) (v : Val) : Option MSt :=
@@ -414,15 +416,18 @@ def bindStatics (g : FName) : List (Nat × Val) → MSt → MSt
   | [], s => s
   | (i, v) :: rest, s => bindStatics g rest (bindStatic g s i v)
 
-/-- missing argument: `Parameter.GetValue` installs the default when the slot is null -/
-def bindDefault (s : MSt) (p : MParam) : MRes Unit :=
-  match s.getSlot p.idx with
-  | none => .ctl .thr s
-  | some .null =>
-    match p.dflt with
-    | some d => (assignTo s p.idx d).bind fun _ s1 => .ok () s1
-    | none => .ok () s
-  | some _ => .ok () s
+/-- parameters without an argument: `Parameter.GetValue` reads the (fresh) slot and installs
+the default when it is null; `none` = slot index out of range (thrown error) -/
+def fillDefaults : List MParam → List Val → Option (List Val)
+  | [], slots => some slots
+  | p :: ps, slots =>
+    match slots[p.idx]? with
+    | none => none
+    | some .null =>
+      (match p.dflt with
+        | some d => fillDefaults ps (slots.set p.idx d)
+        | none => fillDefaults ps slots)
+    | some _ => fillDefaults ps slots
 
 /-- FunctionStatement.Call: what the body's result means for the caller -/
 def callResultM (caller : Frame) : MRes Val → MRes Val
@@ -493,14 +498,10 @@ def bindArgs (funs : List MFun) : Nat → List MParam → MArgs → MSt → List
     else match v with
       | .list _ => .ctl .crash s1
       | _ => .ctl .thr s1
-  | f+1, p :: ps, .nil, s, slots =>
-    match slots[p.idx]? with
+  | _+1, p :: ps, .nil, s, slots =>
+    match fillDefaults (p :: ps) slots with
+    | some slots' => .ok slots' s
     | none => .ctl .thr s
-    | some .null =>
-      (match p.dflt with
-        | some d => bindArgs funs f ps .nil s (slots.set p.idx d)
-        | none => bindArgs funs f ps .nil s slots)
-    | some _ => bindArgs funs f ps .nil s slots
 
 def evalArmsM (funs : List MFun) : Nat → Val → MArms → MExpr → MSt → MRes Val
   | 0, _, _, _, _ => .timeout
